@@ -87,6 +87,11 @@ Definition parse_plaintext (p : bytes) : res cookie :=
   | _ => Err err_decrypt
   end.
 
+(* `keys.get(i)` / `keys[i]` with a machine-integer index; the range test comes
+   first so that a wrapped (huge) index is never turned into a unary number *)
+Definition nth_key (l : list bytes) (i : Z) : option bytes :=
+  if (0 <=? i) && (i <? lenZ l) then nth_error l (Z.to_nat i) else None.
+
 Section Cookies.
   (* AEAD_AES_SIV_CMAC_512 as used by AesSivCmac512::{encrypt, decrypt}:
      key, nonce, associated data, plaintext/ciphertext *)
@@ -96,7 +101,7 @@ Section Cookies.
   (* KeySet::encode_cookie; [nonce] is the random nonce drawn by encrypt.
      id(4) || ciphertext length(2, `as u16`) || nonce || ciphertext *)
   Definition encode_cookie (ks : keyset) (c : cookie) (nonce : bytes) : res bytes :=
-    match nth_error (keys ks) (Z.to_nat (primary ks)) with
+    match nth_key (keys ks) (primary ks) with
     | None => Panic panic_encode_primary_index
     | Some k =>
         let ct := enc k nonce [] (plaintext c) in
@@ -108,7 +113,7 @@ Section Cookies.
   Definition decode_cookie (ks : keyset) (b : bytes) : res cookie :=
     if lenZ b <? hdr_len then Err err_decrypt else
     let idx := wrap 32 (ck_id b - id_offset ks) in
-    match nth_error (keys ks) (Z.to_nat idx) with
+    match nth_key (keys ks) idx with
     | None => Err err_decrypt
     | Some k =>
         if lenZ (skipn (Z.to_nat hdr_len) b) <? ck_len b then Err err_decrypt else
